@@ -45,12 +45,222 @@ let model_reps r = List.map (fun ((c, p), d) -> (zi c, zi p, zi d)) r
 
 exception Stop
 
+let maxu32 = 4294967295
+
+(* ---------- the plain array of the property as an OCaml int array (large files, 10^3 .. 10^6 lines) ----------
+   the same edit as the extracted arr_update (delete the range, insert ins lines stamped t), done in place with
+   blit + fill; every non-scale case checks these native functions against the extracted ones (self_check) *)
+type parr = { mutable a : int array; mutable n : int }
+let parr_make n v = { a = Array.make (n + n / 2 + 16) v; n }
+let parr_update (p : parr) t pos ins del =
+  let n' = p.n + ins - del in
+  if n' > Array.length p.a then begin
+    let b = Array.make (n' + n' / 2 + 16) 0 in Array.blit p.a 0 b 0 p.n; p.a <- b end;
+  if ins <> del then Array.blit p.a (pos + del) p.a (pos + ins) (p.n - pos - del);
+  Array.fill p.a pos ins t;
+  p.n <- n'
+let parr_to_list p = Array.to_list (Array.sub p.a 0 p.n)
+let parr_runs p =
+  let res = ref [] in
+  let i = ref (p.n - 1) in
+  while !i >= 0 do
+    let v = p.a.(!i) in let j = ref !i in
+    while !j >= 0 && p.a.(!j) = v do decr j done;
+    res := (v, !i - !j) :: !res; i := !j
+  done; !res
+let is_mark_i v = v land 16383 = 16383
+let nat_in_range n t pos ins del =
+  t >= 0 && t < maxu32 && pos >= 0 && ins >= 0 && del >= 0 && pos + del <= n && n + ins - del <= maxu32
+let nat_must_panic n t pos ins del =
+  t < 0 || t >= maxu32 || pos < 0 || pos > maxu32 || ins < 0 || del < 0 || ins > maxu32 || del > maxu32
+  || (not (ins = 0 && del = 0) && (pos > n || pos + del > n))
+let parr_mark_ok p t pos del =
+  let ok = ref true in
+  for i = pos to pos + del - 1 do let v = p.a.(i) in if is_mark_i v && v <> t then ok := false done; !ok
+
+(* ---------- one oracle interface, three representations of the plain array ---------- *)
+type oracle = {
+  o_len : unit -> int;
+  o_in_range : int -> int -> int -> int -> bool;
+  o_valid : int -> int -> int -> int -> bool;
+  o_must_panic : int -> int -> int -> int -> bool;
+  o_slice : int -> int -> (int * int) list;       (* the deleted range as (value, count) runs *)
+  o_update : int -> int -> int -> int -> unit;
+  o_runs : unit -> (int * int) list;              (* canonical run-length form of the lines *)
+}
+
+let flat_oracle t0 n0 : oracle =
+  let p = parr_make n0 t0 in
+  { o_len = (fun () -> p.n);
+    o_in_range = (fun t pos ins del -> nat_in_range p.n t pos ins del);
+    o_valid = (fun t pos ins del -> nat_in_range p.n t pos ins del && parr_mark_ok p t pos del);
+    o_must_panic = (fun t pos ins del -> nat_must_panic p.n t pos ins del);
+    o_slice = (fun pos del -> List.init del (fun i -> (p.a.(pos + i), 1)));
+    o_update = (fun t pos ins del -> parr_update p t pos ins del);
+    o_runs = (fun () -> parr_runs p) }
+
+(* files that cannot be materialised: the extracted run-length functions (File/Rle.v: rle_update = arr_update,
+   rle_validb = validb, rle_must_panicb = must_panicb, rle_len = length on the expanded array) *)
+let zruns r = List.map (fun (v, c) -> (zi v, zi c)) r
+let rle_oracle t0 n0 : oracle =
+  let r = ref (rle_norm [(z t0, z n0)]) in
+  { o_len = (fun () -> zi (rle_len !r));
+    o_in_range = (fun t pos ins del -> rle_in_rangeb (z t) (z pos) (z ins) (z del) !r);
+    o_valid = (fun t pos ins del -> rle_validb (z t) (z pos) (z ins) (z del) !r);
+    o_must_panic = (fun t pos ins del -> rle_must_panicb (z t) (z pos) (z ins) (z del) !r);
+    o_slice = (fun pos del -> zruns (rle_slice (z pos) (z del) !r));
+    o_update = (fun t pos ins del -> r := rle_update (z t) (z pos) (z ins) (z del) !r);
+    o_runs = (fun () -> zruns !r) }
+
+let show_runs l = "[" ^ String.concat ";" (List.map (fun (a, b) -> Printf.sprintf "%dx%d" a b) l) ^ "]"
+let rec first_diff pos (a : (int * int) list) (b : (int * int) list) =
+  match a, b with
+  | [], [] -> "equal"
+  | (v, c) :: _, [] -> Printf.sprintf "line %d: impl %d, array ends" pos v
+  | [], (v, c) :: _ -> Printf.sprintf "line %d: impl ends, array %d" pos v
+  | (v, c) :: ra, (w, d) :: rb ->
+      if v <> w then Printf.sprintf "line %d: impl %d, array %d" pos v w
+      else if c = d then first_diff (pos + c) ra rb
+      else if c < d then first_diff (pos + c) ra ((w, d - c) :: rb)
+      else first_diff (pos + d) ((v, c - d) :: ra) rb
+let clip s = if String.length s > 600 then String.sub s 0 600 ^ "..." else s
+
+(* ---------- scale cases: light observation after every operation, full observation at checkpoints ---------- *)
+type sobs =
+  | SPanic of string
+  | SStep of int * (int * int * int) list                        (* Len, Updater calls *)
+  | SChk of int * (int * int) list * (int * int) list option     (* after op#i: nodes, File.flatten as runs *)
+
+let sobs_of_sx (s : sx) : sobs =
+  match tag s with
+  | "panic" -> SPanic (match args s with a :: _ -> atom a | [] -> "?")
+  | "s" ->
+      (match args s with
+       | ln :: cbs -> SStep (int_of_sx ln, List.map (fun n -> match list_of_sx n with [c; p; d] -> (int_of_sx c, int_of_sx p, int_of_sx d) | _ -> failwith "cb") cbs)
+       | [] -> failwith "s")
+  | "chk" ->
+      let a = args s in
+      let pair n = match list_of_sx n with [k; v] -> (int_of_sx k, int_of_sx v) | _ -> failwith "pair" in
+      let nodes = List.map pair (args (List.nth a 1)) in
+      let runs = if List.length a > 2 then Some (List.map pair (args (List.nth a 2))) else None in
+      SChk (int_of_sx (List.hd a), nodes, runs)
+  | t -> failwith ("scale obs tag " ^ t)
+
+(* per-step histogram law: the deltas reported in this step, summed per previousTime, are exactly
+   -(lines of each value in the deleted range) and +ins for the tick *)
+let step_hist_expected (slice : (int * int) list) t ins =
+  let h = Hashtbl.create 8 in
+  List.iter (fun (v, c) -> bump h v (-c)) slice;
+  if ins > 0 then bump h t ins; hist_list h
+let step_hist_reported cbs =
+  let h = Hashtbl.create 8 in List.iter (fun (_, pv, d) -> bump h pv d) cbs; hist_list h
+
+let judge_scale id ~t0 ~n0 ~(ops : (int * int * int * int) array) ~flat ~model (entries : sobs list) =
+  let orc = if flat then flat_oracle t0 n0 else rle_oracle t0 n0 in
+  let st = ref None in
+  let judging = ref true in
+  let idx = ref (-1) in      (* index of the last applied operation; -1 = NewFile *)
+  (try
+    let first = ref true in
+    List.iter (fun e ->
+      match e with
+      | SChk (i, nodes, runs) ->
+          if i <> !idx then failwith (Printf.sprintf "checkpoint index %d at %d" i !idx);
+          count "checkpoints";
+          let znodes = List.map (fun (k, v) -> (z k, z v)) nodes in
+          if !judging then begin
+            let expected = orc.o_runs () in
+            let of_nodes = zruns (rle_flatten znodes) in
+            let impl = match runs with Some r -> r | None -> of_nodes in
+            if impl <> expected then begin
+              propfail id (Printf.sprintf "scale: after op#%d lines differ from the array (%d vs %d runs): %s" i
+                             (List.length impl) (List.length expected) (first_diff 0 impl expected)); judging := false end
+            else if of_nodes <> expected then begin
+              propfail id (Printf.sprintf "scale: after op#%d the intervals of the tree differ from the array: %s" i (first_diff 0 of_nodes expected));
+              judging := false end;
+            if !judging && not (wfb znodes) then
+              mismatch id (Printf.sprintf "scale: after op#%d the reachable state is not well formed" i)
+          end;
+          (match !st with
+           | Some s when model_nodes s <> nodes ->
+               mismatch id (Printf.sprintf "scale: after op#%d nodes differ from the model (%d vs %d nodes)" i (List.length nodes) (List.length s)); st := None
+           | _ -> ())
+      | _ when !first ->
+          first := false;
+          (match e with
+           | SPanic g -> propfail id ("scale: NewFile panics (" ^ g ^ ") on an admissible tick and length"); raise Stop
+           | SStep (ln, cbs) ->
+               if ln <> n0 then propfail id (Printf.sprintf "scale: NewFile: Len()=%d for a %d-line file" ln n0);
+               let want = if is_mark_i t0 then [] else step_hist_expected [] t0 n0 in
+               if step_hist_reported cbs <> want then propfail id ("scale: NewFile reports " ^ show_trip cbs);
+               if model then
+                 (match new_file (z t0) (z n0) with
+                  | Ok (s, r) -> if zi (len s) <> ln || model_reps r <> cbs then mismatch id "scale: NewFile differs from the model" else st := Some s
+                  | Panic _ -> mismatch id "scale: model NewFile panics")
+           | SChk _ -> failwith "scale: first observation")
+      | _ ->
+          incr idx;
+          let i = !idx in
+          if i >= Array.length ops then failwith "more observations than operations";
+          let (t, p, ins, del) = ops.(i) in
+          let here = Printf.sprintf "scale op#%d (%d %d %d %d)" i t p ins del in
+          (* ---- the property ---- *)
+          if !judging then begin
+            let valid = orc.o_valid t p ins del and mustp = orc.o_must_panic t p ins del in
+            (match e with
+             | SPanic g ->
+                 if valid then propfail id (here ^ " a valid request panics (" ^ g ^ ")")
+                 else if mustp then count "rejected_out_of_range" else count "panic_outside_domain"
+             | SStep (ln, cbs) ->
+                 if mustp then begin propfail id (here ^ " an out-of-range request is silently accepted"); judging := false end
+                 else if valid then begin
+                   count "valid_ops"; count "scale_ops";
+                   let want = if is_mark_i t then [] else step_hist_expected (orc.o_slice p del) t ins in
+                   orc.o_update t p ins del;
+                   if ln <> orc.o_len () then begin
+                     propfail id (here ^ Printf.sprintf " Len()=%d, the array has %d lines" ln (orc.o_len ())); judging := false end
+                   else if is_mark_i t && cbs <> [] then
+                     propfail id (here ^ " an operation stamped with the merge mark reports " ^ clip (show_trip cbs))
+                   else if step_hist_reported cbs <> want then begin
+                     propfail id (here ^ " the reported deltas change the observers' histogram by " ^ clip (show_pairs (step_hist_reported cbs))
+                                  ^ ", the array's histogram changes by " ^ clip (show_pairs want)); judging := false end
+                 end else begin count "outside_domain"; judging := false end
+             | SChk _ -> ())
+          end;
+          (* ---- the model ---- *)
+          (match !st with
+           | None -> ()
+           | Some s ->
+               (match update (z t) (z p) (z ins) (z del) s, e with
+                | Panic cl, SPanic g -> if pclass_name cl <> g then mismatch id (here ^ Printf.sprintf " panic class: impl=%s model=%s" g (pclass_name cl))
+                | Panic cl, _ -> mismatch id (here ^ " model panics (" ^ pclass_name cl ^ "), implementation does not"); st := None
+                | Ok _, SPanic g -> mismatch id (here ^ " implementation panics (" ^ g ^ "), model does not"); st := None
+                | Ok (s', r), SStep (ln, cbs) ->
+                    if zi (len s') <> ln then begin mismatch id (here ^ " Len differs from the model"); st := None end
+                    else if model_reps r <> cbs then begin
+                      mismatch id (here ^ " updater calls: impl=" ^ clip (show_trip cbs) ^ " model=" ^ clip (show_trip (model_reps r))); st := None end
+                    else begin count "steps"; st := Some s' end
+                | _ -> ()));
+          (match e with SPanic _ -> raise Stop | _ -> ())) entries
+  with Stop -> ())
+
+
 let () =
   iter_cases (fun id c ->
+    if field_opt "script" c <> None then begin
+      (* a scale case: light observations after every operation, full ones at checkpoints *)
+      let t0 = int_of_sx (List.hd (args (field "t0" c))) and n0 = int_of_sx (List.hd (args (field "n0" c))) in
+      let ops = Array.of_list (List.map (fun o -> match ints_of_sx o with [t; p; i; d] -> (t, p, i, d) | _ -> failwith "op") (args (field "script" c))) in
+      let flag name = match field_opt name c with Some f -> int_of_sx (List.hd (args f)) <> 0 | None -> true in
+      let flat = flag "flat" && n0 <= 50000000 in
+      count (if flat then "scale_cases" else "scale_cases_run_length");
+      if flag "model" then count "scale_cases_with_model";
+      judge_scale id ~t0 ~n0 ~ops ~flat ~model:(flag "model") (List.map sobs_of_sx (args (field "obs" c)))
+    end else
     let t0 = int_of_sx (List.hd (args (field "t0" c))) and n0 = int_of_sx (List.hd (args (field "n0" c))) in
     let ops = List.map (fun o -> match ints_of_sx o with [t; p; i; d] -> (t, p, i, d) | _ -> failwith "op") (args (field "ops" c)) in
     let obs = List.map obs_of_sx (args (field "obs" c)) in
-    let maxu32 = 4294967295 in
+    let huge = n0 > 100000 || List.exists (fun (_, _, ins, _) -> ins > 1000000 && ins <= maxu32) ops in
     (try
       (* ---- NewFile ---- *)
       let ob0, obs = match obs with o :: r -> (o, r) | [] -> failwith "no NewFile observation" in
@@ -73,9 +283,14 @@ let () =
        | Ok (s, r), OOk (ln, nodes, lines, cbs) ->
            List.iter (fun (_, p, d) -> bump hobs p d) cbs;
            if new_in_domain then begin
-             if n0 > 100000 then begin
-               (* huge files: the array is not materialised; only the fine correspondence is checked *)
-               count "huge_file"; arr := []
+             if huge then begin
+               (* files (or insertions) too long to materialise line by line: the property is judged on the
+                  run-length array (extracted rle_update / rle_validb / rle_must_panicb, File/Rle.v) *)
+               count "huge_file"; arr := [];
+               let entries = List.concat (List.mapi (fun i o -> match o with
+                 | OPanic g -> [SPanic g]
+                 | OOk (ln, nodes, _, cbs) -> [SStep (ln, cbs); SChk (i - 1, nodes, None)]) (ob0 :: obs)) in
+               judge_scale id ~t0 ~n0 ~ops:(Array.of_list ops) ~flat:false ~model:false entries
              end else begin
                arr := List.init n0 (fun _ -> t0);
                if ln <> n0 then propfail id (Printf.sprintf "NewFile: Len()=%d for a %d-line file" ln n0)
@@ -93,22 +308,23 @@ let () =
              (* e.g. a negative length: the tree is not well formed; only the correspondence is followed *)
              arr := []
            end);
-      let huge = n0 > 100000 in
       let in_domain = ref (new_in_domain && not huge) in
+      (* self-check of the driver's native array (used alone on scale cases) and of the run-length oracle *)
+      let sp = parr_make (if !in_domain then n0 else 0) t0 in
+      let ro = rle_oracle t0 (if !in_domain then n0 else 0) in
       if List.length obs > List.length ops then failwith "more observations than operations";
       List.iteri (fun i ob ->
         let (t, p, ins, del) = List.nth ops i in
         let here = Printf.sprintf "op#%d (%d %d %d %d)" i t p ins del in
         let zarr = List.map z !arr in
         (* ---- coarse: the property, judged on the implementation's own outputs ---- *)
-        if !in_domain && ins > 1000000 && ins <= maxu32 && t >= 0 && t < maxu32 && p >= 0 && del >= 0 && p + del <= List.length !arr then begin
-          (* in range but too large to materialise as an array: only the fine correspondence is followed *)
-          count "huge_insert"; in_domain := false
-        end;
         if !in_domain then begin
           let valid = validb (z t) (z p) (z ins) (z del) zarr in
           let inr = in_rangeb (z t) (z p) (z ins) (z del) zarr in
           let mustp = must_panicb (z t) (z p) (z ins) (z del) zarr in
+          if (nat_in_range sp.n t p ins del && parr_mark_ok sp t p del) <> valid || nat_must_panic sp.n t p ins del <> mustp
+             || ro.o_valid t p ins del <> valid || ro.o_must_panic t p ins del <> mustp then
+            failwith (Printf.sprintf "case %d: self-check of the native / run-length domain predicates failed" id);
           (match ob with
            | OPanic g ->
                if valid then propfail id (here ^ " a valid request panics (" ^ g ^ ")")
@@ -119,6 +335,9 @@ let () =
                else if valid then begin
                  count "valid_ops";
                  let arr' = List.map zi (arr_update (z t) (z p) (z ins) (z del) zarr) in
+                 parr_update sp t p ins del; ro.o_update t p ins del;
+                 if parr_to_list sp <> arr' || ro.o_runs () <> parr_runs sp then
+                   failwith (Printf.sprintf "case %d: self-check of the native / run-length array edit failed" id);
                  if ln <> List.length arr' then propfail id (here ^ Printf.sprintf " Len()=%d, the array has %d lines" ln (List.length arr'))
                  else if lines <> arr' then propfail id (here ^ " lines differ from the array: impl=" ^ show_ints lines ^ " array=" ^ show_ints arr')
                  else begin
